@@ -58,10 +58,12 @@ impl<T> ValuesMatrix<T> {
     }
 
     pub fn slice_iter(&self, skip: GenerationIdx) -> impl Iterator<Item = &[T]> {
+        // `skip` is a generation index obtained from generations_count(), which counts empty generations
+        // too, so generations must be skipped by index before the empty ones are filtered out
         self.values
             .iter()
-            .filter(|generation| !generation.is_empty())
             .skip(skip.into())
+            .filter(|generation| !generation.is_empty())
             .map(|generation| generation.as_ref())
     }
 
